@@ -163,7 +163,10 @@ func (bh *BlankHost) NewStream(ctx context.Context, p peer.ID, protos ...protoco
 		return nil, fmt.Errorf("failed to negotiate protocol: %w", err)
 	}
 
-	s.SetProtocol(selected)
+	if err := s.SetProtocol(selected); err != nil {
+		s.ResetWithError(network.StreamResourceLimitExceeded)
+		return nil, fmt.Errorf("failed to set protocol: %w", err)
+	}
 	bh.Peerstore().AddProtocols(p, selected)
 
 	return s, nil
@@ -177,9 +180,8 @@ func (bh *BlankHost) RemoveStreamHandler(pid protocol.ID) {
 }
 
 func (bh *BlankHost) SetStreamHandler(pid protocol.ID, handler network.StreamHandler) {
-	bh.Mux().AddHandler(pid, func(p protocol.ID, rwc io.ReadWriteCloser) error {
+	bh.Mux().AddHandler(pid, func(_ protocol.ID, rwc io.ReadWriteCloser) error {
 		is := rwc.(network.Stream)
-		is.SetProtocol(p)
 		handler(is)
 		return nil
 	})
@@ -189,9 +191,8 @@ func (bh *BlankHost) SetStreamHandler(pid protocol.ID, handler network.StreamHan
 }
 
 func (bh *BlankHost) SetStreamHandlerMatch(pid protocol.ID, m func(protocol.ID) bool, handler network.StreamHandler) {
-	bh.Mux().AddHandlerWithFunc(pid, m, func(p protocol.ID, rwc io.ReadWriteCloser) error {
+	bh.Mux().AddHandlerWithFunc(pid, m, func(_ protocol.ID, rwc io.ReadWriteCloser) error {
 		is := rwc.(network.Stream)
-		is.SetProtocol(p)
 		handler(is)
 		return nil
 	})
@@ -209,7 +210,11 @@ func (bh *BlankHost) newStreamHandler(s network.Stream) {
 		return
 	}
 
-	s.SetProtocol(protoID)
+	if err := s.SetProtocol(protoID); err != nil {
+		log.Debug("error setting stream protocol", "err", err)
+		s.ResetWithError(network.StreamResourceLimitExceeded)
+		return
+	}
 
 	handle(protoID, s)
 }
